@@ -57,3 +57,29 @@ fn vx_all<I: Iterator, F: FnMut(I::Item) -> bool>(it: I, f: F) -> (r: bool)
             && forall|i: int| #![trigger it.remaining()[i]] 0 <= i < it.remaining().len() ==> f.ensures((it.remaining()[i],), true),
         it.obeys_prophetic_iter_laws() && !r ==> exists|i: int| #![trigger it.remaining()[i]] 0 <= i < it.remaining().len() && f.ensures((it.remaining()[i],), false),
 { let mut it = it; it.all(f) }
+
+/// accs lists the accumulator values of a fold over src: the initial value, then the closure's result at every item (with
+/// the closure's precondition met at every call)
+spec fn vx_fold_chain<A, B, F: FnMut(B, A) -> B>(src: Seq<A>, init: B, f: F, accs: Seq<B>) -> bool {
+    &&& accs.len() == src.len() + 1
+    &&& accs[0] == init
+    &&& forall|k: int| 0 <= k < src.len() ==> f.requires((#[trigger] accs[k], src[k])) && f.ensures((accs[k], src[k]), accs[k + 1])
+}
+
+// rustdoc Iterator::fold: "Folds every element into an accumulator by applying an operation, returning the final result.
+// fold() takes two arguments: an initial value, and a closure with two arguments: an 'accumulator', and an element. The closure
+// returns the value that the accumulator should have for the next iteration. The initial value is the value the accumulator
+// will have on the first call. After applying this closure to every element of the iterator, fold() returns the accumulator."
+// Precondition (so that every call of the closure meets the closure's precondition): it holds for the initial value at the
+// first item, and the closure's precondition is inductive - a result obtained under it meets it at the next item.
+// `fold` consumes the whole iterator (`will_return_none()`, as in vstd's contract of `Iterator::collect`).
+#[verifier::external_body]
+fn vx_fold<I: Iterator, B, F: FnMut(B, I::Item) -> B>(it: I, init: B, f: F) -> (r: B)
+    requires
+        it.remaining().len() > 0 ==> f.requires((init, it.remaining()[0])),
+        forall|k: int, acc: B, out: B| 0 <= k < it.remaining().len() - 1 && f.requires((acc, it.remaining()[k]))
+            && #[trigger] f.ensures((acc, it.remaining()[k]), out) ==> f.requires((out, it.remaining()[k + 1])),
+    ensures
+        it.obeys_prophetic_iter_laws() ==> it.will_return_none()
+            && exists|accs: Seq<B>| #[trigger] vx_fold_chain(it.remaining(), init, f, accs) && r == accs.last(),
+{ it.fold(init, f) }
